@@ -3,16 +3,204 @@
 
   Property theorems only. Model: GeoModel/Area.lean, GeoModel/Winding.lean; helper lemmas in
   GeoProofs/Lemmas/C05Area.lean and C05Winding.lean.
+
+  Rings of a `Polygon` are closed by construction (C18 `inv_run`), so `r.head? = r.getLast?` is the
+  type invariant of a ring, not an extra hypothesis; where a statement also holds for open
+  coordinate lists (on which the code returns 0) it is stated without it.
 -/
 import GeoModel.Area
 import GeoModel.Winding
 import GeoProofs.Lemmas.C05Area
 import GeoProofs.Lemmas.C05Winding
+import Mathlib.Tactic.NormNum
 
 namespace Geo.Proofs.C05
 open Geo Geo.Proofs.C05L
 
-/-- [T] `unsigned_area` of a polygon is the absolute value of `signed_area`. -/
-theorem poly_unsigned_eq_abs (p : Poly) : p.unsignedArea = rabs p.signedArea := rfl
+/-! ### The conditioning shift changes nothing in exact arithmetic -/
+
+/-- [T] `shift_invariance`: on a closed ring the sum of segment determinants after shifting by
+*any* point `s` equals the unshifted shoelace sum (telescoping). -/
+theorem shift_invariance (s : Pt) (r : List Pt) (hc : r.head? = r.getLast?) :
+    sumRat (shiftedDets s r) = shoelace2 r := by
+  cases r with
+  | nil => simp [shiftedDets, shoelace2, sumRat]
+  | cons a t => rw [sum_shiftedDets, lastD_of_closed hc]; ring
+
+/-- [T] the code's `twice_signed_ring_area` (early returns, shift to the first vertex, left fold)
+is the textbook shoelace sum on every closed ring, including the degenerate ones. -/
+theorem twice_eq_shoelace (r : List Pt) (hc : r.head? = r.getLast?) :
+    twiceSignedRingArea r = shoelace2 r := twice_closed r hc
+
+example : twiceSignedRingArea [⟨100, 100⟩, ⟨104, 100⟩, ⟨104, 103⟩, ⟨100, 100⟩] = 12 := by
+  rw [twice_eq_shoelace _ (by decide)]; norm_num [shoelace2, det]
+
+/-- [T] `area_translate`: translating a coordinate list (closed or not) leaves the result
+unchanged. -/
+theorem area_translate (v : Pt) (r : List Pt) :
+    twiceSignedRingArea (r.map (· + v)) = twiceSignedRingArea r := by
+  have hinj : Function.Injective (fun p : Pt => p + v) := by
+    intro p q h
+    have hx : (p + v).x = (q + v).x := congrArg Pt.x h
+    have hy : (p + v).y = (q + v).y := congrArg Pt.y h
+    simp only [add_x, add_y] at hx hy
+    cases p; cases q; simp only [Pt.mk.injEq]; constructor <;> linarith
+  by_cases hc : r.head? = r.getLast?
+  · have hc' := (head?_map_inj hinj r).2 hc
+    rw [twice_closed _ hc', twice_closed _ hc]
+    have hm : r.map (· + v) = r.map (· - (⟨-v.x, -v.y⟩ : Pt)) := by
+      apply List.map_congr_left; intro p _
+      show p + v = p - ⟨-v.x, -v.y⟩
+      cases p; cases v
+      show Pt.mk _ _ = Pt.mk _ _
+      simp only [Pt.mk.injEq]; constructor <;> ring
+    rw [hm, shoelace2_map_sub, shift_invariance _ _ hc]
+  · have hc' : ¬ (r.map (· + v)).head? = (r.map (· + v)).getLast? :=
+      fun h => hc ((head?_map_inj hinj r).1 h)
+    rw [twice_open _ hc', twice_open _ hc]
+
+private theorem shoelace2_smul (k : Rat) (l : List Pt) :
+    shoelace2 (l.map (Pt.smul k)) = k * k * shoelace2 l := by
+  induction l with
+  | nil => simp [shoelace2]
+  | cons a t ih =>
+    cases t with
+    | nil => simp [shoelace2]
+    | cons b t' =>
+      simp only [List.map_cons, shoelace2] at ih ⊢
+      rw [ih]; simp only [det, Pt.smul]; ring
+
+/-- [T] `area_scale`: scaling a ring by `k` multiplies the area by `k²`. -/
+theorem area_scale (k : Rat) (r : List Pt) (hc : r.head? = r.getLast?) :
+    twiceSignedRingArea (r.map (Pt.smul k)) = k * k * twiceSignedRingArea r := by
+  have hc' : (r.map (Pt.smul k)).head? = (r.map (Pt.smul k)).getLast? := by
+    rw [List.head?_map, List.getLast?_map, hc]
+  rw [twice_closed _ hc', twice_closed _ hc, shoelace2_smul]
+
+private theorem shoelace2_swap (l : List Pt) :
+    shoelace2 (l.map (fun p => (⟨p.y, p.x⟩ : Pt))) = - shoelace2 l := by
+  induction l with
+  | nil => simp [shoelace2]
+  | cons a t ih =>
+    cases t with
+    | nil => simp [shoelace2]
+    | cons b t' =>
+      simp only [List.map_cons, shoelace2] at ih ⊢
+      rw [ih]; simp only [det]; ring
+
+/-- [T] `area_swap_axes`: exchanging the axes (a reflection) negates the area. -/
+theorem area_swap_axes (r : List Pt) (hc : r.head? = r.getLast?) :
+    twiceSignedRingArea (r.map (fun p => (⟨p.y, p.x⟩ : Pt))) = - twiceSignedRingArea r := by
+  have hc' : (r.map (fun p => (⟨p.y, p.x⟩ : Pt))).head? = (r.map (fun p => (⟨p.y, p.x⟩ : Pt))).getLast? := by
+    rw [List.head?_map, List.getLast?_map, hc]
+  rw [twice_closed _ hc', twice_closed _ hc, shoelace2_swap]
+
+/-! ### Direction and start vertex of a ring -/
+
+/-- [T] `ringArea_reverse`: reversing a coordinate list negates `twice_signed_ring_area`
+(closed or open: an open list stays open). -/
+theorem ringArea_reverse (r : List Pt) : twiceSignedRingArea r.reverse = - twiceSignedRingArea r := by
+  by_cases hc : r.head? = r.getLast?
+  · have hc' : r.reverse.head? = r.reverse.getLast? := by
+      rw [List.head?_reverse, List.getLast?_reverse, hc]
+    rw [twice_closed _ hc', twice_closed _ hc, shoelace2_reverse]
+  · have hc' : ¬ r.reverse.head? = r.reverse.getLast? := by
+      rw [List.head?_reverse, List.getLast?_reverse]; exact fun h => hc h.symm
+    rw [twice_open _ hc', twice_open _ hc]; ring
+
+/-- moving the start of a closed ring to its second vertex -/
+def rotate1 : List Pt → List Pt
+  | _ :: b :: t => b :: t ++ [b]
+  | r => r
+
+/-- [T] `ringArea_rotate`: the start vertex of a closed ring is irrelevant (one step; any
+rotation is an iterate). -/
+theorem ringArea_rotate (r : List Pt) (hc : r.head? = r.getLast?) :
+    twiceSignedRingArea (rotate1 r) = twiceSignedRingArea r := by
+  match r, hc with
+  | [], _ => rfl
+  | [a], _ => rfl
+  | a :: b :: t, hc =>
+    have hl : (b :: t).getLast? = some a := by
+      have : (a :: b :: t).getLast? = (b :: t).getLast? := List.getLast?_cons_cons
+      rw [← this, ← hc]; rfl
+    have hc' : (rotate1 (a :: b :: t)).head? = (rotate1 (a :: b :: t)).getLast? := by
+      show some b = ((b :: t) ++ [b]).getLast?
+      rw [List.getLast?_concat]
+    rw [twice_closed _ hc', twice_closed _ hc]
+    show shoelace2 ((b :: t) ++ [b]) = _
+    rw [shoelace2_snoc, hl]; simp only [shoelace2]; ring
+
+example : rotate1 [⟨0, 0⟩, ⟨4, 0⟩, ⟨4, 3⟩, ⟨0, 0⟩] = [⟨4, 0⟩, ⟨4, 3⟩, ⟨0, 0⟩, ⟨4, 0⟩] := by decide
+
+/-! ### Polygons: sign convention with mixed hole windings -/
+
+/-- [T] `signed_area` of a polygon is `|exterior| − Σ|holes|`, carrying the sign of the exterior
+(closed form of the fold in `impl Area for Polygon`). -/
+theorem polygonArea_formula (p : Poly) :
+    p.signedArea =
+      (if ringArea p.ext < 0 then -1 else 1) *
+        (rabs (ringArea p.ext) - sumRat (p.ints.map (fun h => rabs (ringArea h)))) := by
+  unfold Poly.signedArea
+  simp only [foldl_sub_map (fun h => rabs (ringArea h))]
+  split <;> ring
+
+/-- [T] for a polygon whose rings are closed, `signed_area` is the specification: the shoelace
+area of the exterior minus that of the holes (by magnitude), signed like the exterior. -/
+theorem polygonArea_eq_spec (p : Poly) (he : p.ext.head? = p.ext.getLast?)
+    (hi : ∀ h ∈ p.ints, h.head? = h.getLast?) : p.signedArea = specPoly p := by
+  have hr : ringArea p.ext = specRing p.ext := by simp only [ringArea, specRing, twice_closed _ he]
+  have hm : p.ints.map (fun h => rabs (ringArea h)) = p.ints.map (fun h => rabs (specRing h)) := by
+    apply List.map_congr_left; intro h hh
+    simp only [ringArea, specRing, twice_closed _ (hi h hh)]
+  rw [polygonArea_formula, specPoly, hr, hm]
+  split <;> ring
+
+example : (Poly.mk [⟨0, 0⟩, ⟨0, 8⟩, ⟨8, 8⟩, ⟨8, 0⟩, ⟨0, 0⟩]
+    [[⟨1, 1⟩, ⟨3, 1⟩, ⟨3, 3⟩, ⟨1, 3⟩, ⟨1, 1⟩], [⟨5, 5⟩, ⟨5, 7⟩, ⟨7, 7⟩, ⟨7, 5⟩, ⟨5, 5⟩]]).signedArea = -56 := by
+  rw [polygonArea_eq_spec _ (by decide) (by decide)]
+  norm_num [specPoly, specRing, shoelace2, det, sumRat, rabs]
+
+/-- [T] `polygonArea_hole_winding`: the result does not depend on the direction of any hole. -/
+theorem polygonArea_hole_winding (ext : List Pt) (ints ints' : List (List Pt))
+    (h : List.Forall₂ (fun a b => b = a ∨ b = a.reverse) ints ints') :
+    (Poly.mk ext ints').signedArea = (Poly.mk ext ints).signedArea := by
+  have hm : ints'.map (fun h => rabs (ringArea h)) = ints.map (fun h => rabs (ringArea h)) := by
+    induction h with
+    | nil => rfl
+    | cons hab _ ih =>
+      simp only [List.map_cons, ih]
+      rcases hab with rfl | rfl
+      · rfl
+      · simp only [ringArea, ringArea_reverse, neg_div, rabs_neg]
+  rw [polygonArea_formula, polygonArea_formula]
+  simp only [hm]
+
+/-- [T] `polygonArea_sign`: when the holes do not outweigh the exterior, `signed_area` is positive
+exactly when the exterior's shoelace area is positive (counter-clockwise), negative exactly when
+it is negative. -/
+theorem polygonArea_sign (p : Poly)
+    (hw : sumRat (p.ints.map (fun h => rabs (ringArea h))) < rabs (ringArea p.ext)) :
+    (0 < p.signedArea ↔ 0 < ringArea p.ext) ∧ (p.signedArea < 0 ↔ ringArea p.ext < 0) := by
+  rw [polygonArea_formula]
+  have hS : 0 ≤ sumRat (p.ints.map (fun h => rabs (ringArea h))) := by
+    generalize p.ints = l
+    induction l with
+    | nil => simp [sumRat]
+    | cons a t ih => simp only [List.map_cons, sumRat]; have := rabs_nonneg (ringArea a); linarith
+  by_cases hn : ringArea p.ext < 0
+  · rw [if_pos hn]
+    constructor <;> constructor <;> intro h <;> linarith
+  · rw [if_neg hn]
+    have h0 : rabs (ringArea p.ext) = ringArea p.ext := rabs_of_nonneg (by linarith)
+    have hs := rabs_nonneg (ringArea p.ext)
+    constructor <;> constructor <;> intro h <;> linarith
+
+example : 0 < (Poly.mk [⟨0, 0⟩, ⟨4, 0⟩, ⟨4, 4⟩, ⟨0, 4⟩, ⟨0, 0⟩] [[⟨1, 1⟩, ⟨1, 2⟩, ⟨2, 2⟩, ⟨1, 1⟩]]).signedArea := by
+  norm_num [Poly.signedArea, ringArea, twiceSignedRingArea, shiftedDets, det, rabs]
+
+/-- [T] `unsigned_area` of a polygon is the absolute value of `signed_area`, hence non-negative. -/
+theorem polygon_unsigned_eq_abs (p : Poly) : p.unsignedArea = rabs p.signedArea ∧ 0 ≤ p.unsignedArea :=
+  ⟨rfl, rabs_nonneg _⟩
 
 end Geo.Proofs.C05
